@@ -4,12 +4,14 @@ package props
 
 import (
 	"fmt"
+	"math/big"
 	"os"
 	"os/exec"
 	"path/filepath"
 	"regexp"
 	"testing"
 
+	tx "github.com/MinterTeam/minter-go-node/coreV2/transaction"
 	"pgregory.net/rapid"
 	"verif/harness/sim"
 )
@@ -21,7 +23,23 @@ func TestC08(t *testing.T) {
 	rapid.Check(t, func(t *rapid.T) {
 		wo := sim.DefaultOpts()
 		wo.MaxVals, wo.MaxExtraCands, wo.MaxPools = 6, 4, 4
-		h := newHistory(t, wo, sim.GeneralProfile(), sim.BlockOpts{MaxTxs: 12, Absences: true, Evidence: true, EvidenceAny: true, TimeJumps: true})
+		prof := sim.GeneralProfile()
+		many := sim.U(t, "manyCandidates", 8) == 0
+		if many {
+			// close to the 100-candidate limit, many candidates with exactly equal total stakes,
+			// declarations that push the count over the limit: ties at the cut must be broken the
+			// same way on every instance
+			wo.MinExtraCands, wo.MaxExtraCands = 91, 94
+			wo.EqualStakes = true
+			wo.MinStakePd, wo.MaxStakePd = 2, 4
+			wo.Frozen, wo.Orders = false, false
+			prof = stakingProfile()
+			prof["declare"] = 30
+		}
+		h := newHistory(t, wo, prof, sim.BlockOpts{MaxTxs: 12, Absences: true, Evidence: true, EvidenceAny: true, TimeJumps: true})
+		if many {
+			sim.S.Label("C08/worlds-near-the-candidate-limit")
+		}
 		twin := sim.NewNode(h.W)
 		twin.Name = "twin"
 		h.R.Mirrors = []*sim.Node{twin}
@@ -36,7 +54,29 @@ func TestC08(t *testing.T) {
 				violation(t, "instance-divergence-query", h.R, "after commit of %d: %s", height, d)
 			}
 		}
+		declared := 0
+		if many {
+			// several declarations with the same stake per block: equal totals exactly at the cut
+			h.R.H.AfterBegin = func(req sim.BlockReq) {
+				stake := sim.Bip(int64(rapid.SampledFrom([]int{1, 50, 999, 1000, 1001, 5000}).Draw(t, "declStake")))
+				for i := 2 + sim.U(t, "nDeclare", 4); i > 0; i-- {
+					u := sim.GetUser(sim.U(t, "declUser", h.W.NUsers))
+					if h.G.Balance(u.Addr, 0).Cmp(new(big.Int).Add(stake, sim.Bip(20000))) < 0 {
+						continue
+					}
+					declared++
+					data := tx.DeclareCandidacyData{Address: u.Addr, PubKey: sim.ValKey(3000 + declared), Commission: 10, Coin: 0, Stake: stake}
+					raw := sim.SignedTx(h.W, u, h.G.Nonce(u.Addr)+1, tx.TypeDeclareCandidacy, data, 0)
+					if !h.R.Deliver(&sim.TxMeta{Raw: raw, Kind: "declare-crafted", Type: tx.TypeDeclareCandidacy, Sender: u.Addr, Payer: u.Addr, Data: data, GasPrice: 1}) {
+						break
+					}
+				}
+			}
+		}
 		nb := rapid.IntRange(1, scale(14, 40)).Draw(t, "nBlocks")
+		if many && nb > 6 {
+			nb = 6
+		}
 		for i := 0; i < nb; i++ {
 			if !h.R.Block(t) {
 				if h.R.Divergence != "" {
@@ -65,7 +105,23 @@ func TestC08CrossProcess(t *testing.T) {
 		// one in five generated cases is replayed in child processes (process start dominates)
 		wo := sim.DefaultOpts()
 		wo.MaxVals, wo.MaxExtraCands, wo.MaxPools = 6, 4, 4
-		h := newHistory(t, wo, sim.GeneralProfile(), sim.BlockOpts{MaxTxs: 12, Absences: true, Evidence: true, EvidenceAny: true, TimeJumps: true})
+		prof := sim.GeneralProfile()
+		many := sim.U(t, "manyCandidates", 8) == 0
+		if many {
+			// close to the 100-candidate limit, many candidates with exactly equal total stakes,
+			// declarations that push the count over the limit: ties at the cut must be broken the
+			// same way on every instance
+			wo.MinExtraCands, wo.MaxExtraCands = 91, 94
+			wo.EqualStakes = true
+			wo.MinStakePd, wo.MaxStakePd = 2, 4
+			wo.Frozen, wo.Orders = false, false
+			prof = stakingProfile()
+			prof["declare"] = 30
+		}
+		h := newHistory(t, wo, prof, sim.BlockOpts{MaxTxs: 12, Absences: true, Evidence: true, EvidenceAny: true, TimeJumps: true})
+		if many {
+			sim.S.Label("C08/worlds-near-the-candidate-limit")
+		}
 		h.R.Rec = sim.NewScenario(h.W)
 		nb := rapid.IntRange(2, 14).Draw(t, "nBlocks")
 		for i := 0; i < nb; i++ {
